@@ -7,7 +7,7 @@ import random
 import numpy as np
 import pandas as pd
 
-from ..common import Driver, log
+from ..common import to_frac, Driver, log
 from ..kernels import DT
 from ..rowops import cum_requests, decode_vals, impl_cumulative
 
@@ -132,7 +132,7 @@ def run(res, tier="quick", seed=0, widen=False):
         except Exception as e:  # noqa: BLE001
             res.violations.append(dict(sig=dict(level="api", op=op, what="raised"), case=case, observed=repr(e)[:300], expected=str(spec), what="GroupBy.cum* raised"))
             continue
-        got = [None if pd.isna(x) else Fraction(float(x)) for x in out.tolist()]
+        got = [None if pd.isna(x) else to_frac(x) for x in out.tolist()]
         bad = [i for i in range(L) if got[i] != spec[i] and (mask is None or mask[i] or codes[i] < 0)]
         if bad or list(out.index) != idx_labels:
             res.violations.append(dict(sig=dict(level="api", op=op, what="wrong-prefix"), case=case, observed=str(got), expected=str(spec),
